@@ -68,4 +68,51 @@ def OpOk (snd : Nat → Sender) : Op → Prop
 def SendersOk (snd : Nat → Sender) : Prop :=
   ∀ k, (snd k).isn < 4294967296 ∧ (snd k).S.length + 2 < 1073741824
 
+/-! ### per-stream histories (what one Stream and its connection saw), used by C10 `asm_complete`
+    and the lifecycle theorems of C11 -/
+
+/-- events in the life of one stream: created by the factory, a segment handed to its connection,
+    a Reassembled call, ReassemblyComplete -/
+inductive HEv where
+  | created
+  | fed (s : Seg)
+  | got (items : List Reasm)
+  | completed
+  deriving Repr, DecidableEq
+
+/-- (key, stream id, event) -/
+abbrev Trace := List (Nat × Nat × HEv)
+
+def toT : Ev → Nat × Nat × HEv
+  | .new k s => (k, s, .created)
+  | .data k s items => (k, s, .got items)
+  | .complete k s => (k, s, .completed)
+
+/-- history of stream `sid` of connection `key` -/
+def histOf (key sid : Nat) (t : Trace) : List HEv :=
+  t.filterMap (fun e => if e.1 = key ∧ e.2.1 = sid then some e.2.2 else none)
+
+/-- AssembleWithTimestamp hands the segment to a connection (it is neither an empty packet nor a
+    bare FIN/RST for an unknown connection) -/
+def received (P : Pool) (s : Seg) : Bool :=
+  !(!s.syn && !s.fin && !s.rst && s.bytes.isEmpty) &&
+    ((lookup s.key P.conns).isSome || !(!s.syn && s.bytes.isEmpty))
+
+/-- the callbacks of one operation, plus which stream each segment was handed to -/
+def opTrace (P : Pool) : Op → OpOut → Trace
+  | .seg s, out =>
+    if received P s then
+      match lookup s.key P.conns with
+      | some c => (s.key, c.sid, .fed s) :: out.evs.map toT
+      | none => (s.key, P.nextSid, .created) :: (s.key, P.nextSid, .fed s) :: (out.evs.drop 1).map toT
+    else []
+  | _, out => out.evs.map toT
+
+def runTrace (A : SeqArith) : Pool → List Op → Trace
+  | _, [] => []
+  | P, op :: ops =>
+    match step A P op with
+    | .ok x => opTrace P op x.2 ++ runTrace A x.1 ops
+    | _ => []
+
 end Gp.Asm
